@@ -20,6 +20,9 @@ KEYMOD = 1000
 class KEv(Interval):
     id: int            # the cache key
     ver: int = 0       # mutable non-time content
+    # events of real sources (Google Calendar occurrences) carry a recurring_event_id; the cache
+    # must treat them like any other event (odd keys carry one here)
+    recurring_event_id: str | None = None
 
 
 @dataclass(frozen=True, kw_only=True)
@@ -28,6 +31,7 @@ class KEv2(Interval):
     cal: str
     uid: int
     ver: int = 0
+    recurring_event_id: str | None = None
 
 
 class FakeClock:
@@ -61,9 +65,11 @@ class VersionedSource:
             if self.masked:
                 out.append(Interval(start=s, end=e))
             elif self.compound:
-                out.append(KEv2(start=s, end=e, cal="c", uid=key, ver=self.ver))
+                out.append(KEv2(start=s, end=e, cal="c", uid=key, ver=self.ver,
+                                recurring_event_id=f"series-{key}" if key % 2 else None))
             else:
-                out.append(KEv(start=s, end=e, id=key, ver=self.ver))
+                out.append(KEv(start=s, end=e, id=key, ver=self.ver,
+                               recurring_event_id=f"series-{key}" if key % 2 else None))
         return timeline(*out)
 
     def fetch(self, start, end, *, reverse=False):
